@@ -68,6 +68,19 @@ def crlf_texts():
                     yield t
 
 
+def long_texts():
+    """One long line alone, first, in the middle and last of a text; with and without a final line break."""
+    import string
+
+    long_ = (string.ascii_lowercase + string.digits) * 8  # 288 distinct-looking characters
+    for n_ in (100, 130, 288):
+        ln = long_[:n_]
+        yield ln
+        yield ln + "\n"
+        yield "ab\n" + ln + "\ncd"
+        yield ln + "\nxy\n"
+
+
 def ref_piece(text: str, p: int) -> tuple[int, int, str]:
     """(line number, 1-based column, line with its break) of offset p over the partition of the text into lines with
     their breaks; the end of a text that ends with a break is the start of a new, empty line."""
@@ -178,6 +191,27 @@ def check_error_context(repo: Repo, where: str, thorough: bool = False) -> tuple
             wl = ref_line_of(text, p).rstrip("\n")
             if line not in (wl, wl.rstrip()):
                 bad.append((f"the source line shown is not the line of the position {where_}", f"{desc}: shows {line!r}, the line is {wl!r}"))
+    # long lines (a display may show a window of the line; the line:column it reports is still that of the position)
+    for text in long_texts():
+        for p in sorted({0, 1, 2, 39, 40, 41, 48, 49, 50, 51, 79, 80, 81, 95, 96, 97, 98, 119, 120, 121, 127, 128, 129, 151, 199, 200, 201, 255, 256, 257, len(text) - 2, len(text) - 1, len(text)}):
+            if not 0 <= p <= len(text):
+                continue
+            n += 1
+            desc = f"a text with a line of {max(len(x) for x in text.split(chr(10)))} characters ({text[:12]!r}...), offset {p}"
+            try:
+                got = cm.env["error_context"](text, p)
+            except ModelRaise as err:
+                bad.append(("error_context raises on a long line", f"{desc}: {err}"))
+                continue
+            if not (isinstance(got, tuple) and len(got) == 3):
+                bad.append(("error_context does not return (line, line number, column)", f"{desc}: {got!r}"))
+                continue
+            line, ln, col = got
+            want = ref_line_col(text, p)
+            if (ln, col) != want:
+                bad.append(("the line:column shown is not that of the position on a long line", f"{desc}: shows {ln}:{col}, the position is at {want[0]}:{want[1]}"))
+            elif not isinstance(line, str) or line.strip(". \u2026") not in ref_line_of(text, p):
+                bad.append(("the source line shown is not (part of) the line of the position on a long line", f"{desc}: shows {line!r}"))
     for text in crlf_texts():
         for p in range(len(text) + 1):
             n += 1
